@@ -41,6 +41,9 @@ type Result struct {
 	CapNotes    []string               `json:"cap_notes,omitempty"`
 	Extra       map[string]interface{} `json:"extra,omitempty"`
 	Sections    map[string]int64       `json:"sections,omitempty"`
+	// Uniques are key -> (value, signature): vcheck reports the signature as a violation when two
+	// shards disagree on the value of a key (a cross-process determinism oracle).
+	Uniques map[string][2]string `json:"uniques,omitempty"`
 	HarnessErr  string                 `json:"harness_error,omitempty"`
 	WallS       float64                `json:"wall_s"`
 }
@@ -70,6 +73,7 @@ var (
 	fReplay   = flag.String("replay", "", "replay file")
 	fSeed     = flag.Int64("seed", 0, "seed (only rotates shard order)")
 	fDeadline = flag.Int("deadline", 0, "internal deadline in seconds (0 = none)")
+	fChild    = flag.String("child", "", "harness-private child mode argument")
 )
 
 // Init parses flags and returns the handle.
@@ -84,6 +88,9 @@ func Init(property string) *H {
 	}
 	return h
 }
+
+// Child returns the harness-private child mode argument ("" in normal runs).
+func Child() string { return *fChild }
 
 // Mine reports whether work item idx belongs to this shard.
 func (h *H) Mine(idx int) bool {
@@ -134,6 +141,18 @@ func (h *H) Trace()      { h.mu.Lock(); h.R.Traces++; h.mu.Unlock() }
 func (h *H) AddStates(n int64)      { h.mu.Lock(); h.R.States += n; h.mu.Unlock() }
 func (h *H) AddTransitions(n int64) { h.mu.Lock(); h.R.Transitions += n; h.mu.Unlock() }
 func (h *H) AddTraces(n int64)      { h.mu.Lock(); h.R.Traces += n; h.mu.Unlock() }
+
+// Unique records that key must have one value over all shards.
+func (h *H) Unique(key, value, sig string) {
+	h.mu.Lock()
+	if h.R.Uniques == nil {
+		h.R.Uniques = map[string][2]string{}
+	}
+	if _, ok := h.R.Uniques[key]; !ok {
+		h.R.Uniques[key] = [2]string{value, sig}
+	}
+	h.mu.Unlock()
+}
 
 // Outcome counts an observed outcome class.
 func (h *H) Outcome(class string) {
